@@ -75,6 +75,7 @@ cWhos == {tlc.tla_val(set(p['whos']))}
 cChannels == {tlc.tla_val(set(p.get('channels', ['bytes'])))}
 cEstTab == {tlc.tla_val(est_table(p['M'], p['K']))}
 cBad == {tlc.tla_val(set(p.get('bad', [])))}
+cSetN == {tlc.tla_val(set(p.get('setn', [])))}
 ====
 """,
     )
@@ -110,6 +111,7 @@ PROPERTY SaturatedStays
   Queries = {"TRUE" if p.get('queries') else "FALSE"}
   EstTab <- cEstTab
   Bad <- cBad
+  SetN <- cSetN
 INIT Init
 NEXT Next
 VIEW {"ViewH" if p.get("histview") else "View"}
@@ -268,6 +270,9 @@ class Ctx:
             except Exception:  # noqa
                 return None
             raise Unmodelled("the malformed call was accepted")
+        if o[0] == "setn":     # the public setter of the counter
+            f.elements_added = o[3]
+            return None
         if o[0] == "est":      # the statistics are queries too
             return (f.estimate_elements(), f.current_false_positive_rate(), str(f))
         if o[0] == "rt":
@@ -703,10 +708,12 @@ def profiles(tier, seed, light=False):
         P.append(dict(base, M=7, K=5, H=9, ntables=6, kinds=("mem", "disk"), maxdepth=3))
         P.append(dict(base, M=8, K=2, H=17, ntables=6, kinds=("disk", "mem"), maxdepth=3))
         P.append(dict(base, M=9, K=2, H=20, ntables=6, kinds=("mem", "mem"), maxdepth=3, bad=[3]))      # + look-ups the library rejects
+        P.append(dict(base, M=3, K=2, H=5, ntables=4, kinds=("mem", "mem"), maxdepth=3, setn=[0], keys=["a", "b"]))      # + the counter set to 0 by the caller
         # counting, limits far away
         cb = dict(base, counting=True, amts=[1, 2], cellmax=1000, totmax=1000, maxn=2, maxdepth=3, whos=["A", "B"])
         P.append(dict(cb, M=3, K=2, H=5, ntables=8))
         P.append(dict(cb, M=4, K=3, H=7, ntables=5, keys=["a", "b"], bad=[1, 2]))      # + additions / removals the library rejects (hash list too short)
+        P.append(dict(cb, M=3, K=2, H=5, ntables=3, keys=["a", "b"], setn=[0], amts=[1]))
         # counting, tiny patched limits (C16)
         P.append(dict(cb, M=3, K=2, H=5, ntables=8, cellmax=3, totmax=5, amts=[1, 2, 4], maxn=6, maxdepth=3, patch_limits=True, keys=["a", "b"]))
     else:
@@ -718,7 +725,8 @@ def profiles(tier, seed, light=False):
         cb = dict(base, counting=True, amts=[1, 2], cellmax=1000, totmax=1000, maxn=3, maxdepth=4)
         P.append(dict(cb, M=3, K=2, H=3, ntables=0, exhaustive=True, keys=["a", "b"], maxdepth=3))
         for (M, K, H) in [(3, 2, 5), (4, 3, 7), (8, 2, 17), (5, 2, 9)]:
-            P.append(dict(cb, M=M, K=K, H=H, ntables=8, bad=[1, 2, 3] if K == 3 or M == 5 else []))
+            P.append(dict(cb, M=M, K=K, H=H, ntables=8, bad=[1, 2, 3] if K == 3 or M == 5 else [], setn=[0, 1] if M == 3 else []))
+        P.append(dict(base, M=3, K=2, H=5, ntables=8, kinds=("mem", "mem"), maxdepth=4, setn=[0, 1], keys=["a", "b"]))
         for (M, K, H) in [(3, 2, 5), (2, 1, 3), (4, 3, 7)]:
             P.append(dict(cb, M=M, K=K, H=H, ntables=8, cellmax=3, totmax=5, amts=[1, 2, 4, 7], maxn=8, maxdepth=4, patch_limits=True, keys=["a", "b"]))
     # every HISTORY (no state merging) of the smallest instances: behaviour after clear() / reload for every preceding history
